@@ -24,7 +24,7 @@ func (c01) ID() string { return "C01" }
 func (c01) Info(t core.Tier) core.Info {
 	return core.Info{
 		Level: "exploration",
-		Rule: "each case = one generated schema x 8 valid-biased inputs x {Parse, Validate} x 4 rebuilds with permuted field insertion order (so several field visit orders are observed); " +
+		Rule: "each case = one generated schema x 8 valid-biased inputs x {Parse, Validate} x 4 rebuilds with permuted field insertion order (so several field visit orders are observed); every 4th case instead renders 6 records of a record schema through zjson, zhttp JSON, form, query and env; " +
 			"oracle: if the call returns no issues, every node reached in the destination satisfies every declared test (independent predicates), every Required/NotNil node had a present value or a Default, " +
 			"catching nodes hold their catch value or a valid value. non-trivial: result had no issues and >= 1 test was re-evaluated below the root; distinct by (schema, input, mode, observed visit order).",
 		Assumptions: commonAssumptions,
@@ -240,7 +240,58 @@ func toSlice(v any) []any {
 	return s
 }
 
+// c01Fronts: the same one-directional oracle on records rendered through every front end.
+func c01Fronts(c *core.Ctx) {
+	flat := c.R.Intn(10) < 6
+	fo := gen.FrontOpts{Flat: flat, EnvOnly: flat && c.R.Bool(), MaxDepth: 2, MaxFields: 4}
+	n := gen.RecordSchema(c.R, fo)
+	fronts := []string{"zjson", "zhttp-json"}
+	if flat {
+		fronts = append(fronts, "form", "query")
+		if fo.EnvOnly {
+			fronts = append(fronts, "env")
+		}
+	}
+	src := n.Source()
+	for k := 0; k < 6; k++ {
+		rec := gen.GenRecord(c.R, n, 88, fo)
+		logical := gen.RecToNested(n, rec, "", false) // the record as the walker sees it (keys = zog tag / schema key)
+		for _, f := range fronts {
+			for rep := 0; rep < 2; rep++ {
+				b := spec.Build(n, &spec.Hooks{FieldOrder: permutedOrder(c.R)})
+				prior := gen.Prefill(c.R, n, false)
+				o, _, _ := frontExec(b, n, rec, f, prior, false)
+				c.Eval(1)
+				if o.Panicked {
+					c.Violation("panic|"+f, map[string]any{"schema": src, "record": obs.Render(rec), "front_end": f, "panic": fmt.Sprint(o.Panic), "stack": trunc(o.Stack, 2000)})
+					return
+				}
+				if !o.NoIssues() {
+					c.Count("runs_with_issues", 1)
+					break
+				}
+				w := &c01walker{mode: ref.Parse}
+				w.walk(n, logical, prior, o.Dest, "$")
+				if len(w.viol) > 0 {
+					c.Violation("success-but-invalid|"+f, map[string]any{"schema": src, "record": obs.Render(rec), "front_end": f, "destination": obs.Render(o.Dest), "constraints_violated": w.viol})
+					return
+				}
+				c.Count("successes_checked", 1)
+				c.Count("tests_reevaluated", w.testsEvald)
+				c.Distinct("front_ends", f)
+				if w.testsEvald > 0 {
+					c.NonTrivial(fpf("%s|%s|%s", src, f, obs.Render(rec)))
+				}
+			}
+		}
+	}
+}
+
 func (c01) RunCase(c *core.Ctx) {
+	if c.Case%4 == 3 {
+		c01Fronts(c)
+		return
+	}
 	n := c02Schema(c.R)
 	src := n.Source()
 	inOpts := gen.InOpts{ValidPct: 82, AbsentPct: 8, WrongPct: 3, AltRep: true, Decoys: true}
